@@ -1,4 +1,5 @@
 import Perp.Spec.World
+import Perp.Props.ModelStep
 import Driver.WorldParse
 
 /-!
@@ -181,6 +182,7 @@ def handleWObs (acc : Acc) (h : WHist) (kv : KV) (_line : String) : Acc × WHist
         -- the history continues from the unchanged state
         (acc, { next with seen := h.seen }, some step)
       else
+      let impersonated' := kind == "ifwithdraw" && sender == ENGINE && h.last.w.engine.cfg.insuranceFund != IFUND
       -- 1. specification on the implementation's observations
       -- C07 failures carry the class of the implementation's error (diagnostic, used by known-finding signatures)
       let errClass : String :=
@@ -202,14 +204,21 @@ def handleWObs (acc : Acc) (h : WHist) (kv : KV) (_line : String) : Acc × WHist
       let acc := obs.w.vamms.foldl (fun a p =>
         if (h.seen.filter (fun e => e.1 == p.1)).all (fun e => Spec.C01.recoveryOk p.2.cfg.decimals e.2 p.2.st) then a
         else a.report "SPECFAIL" "C01" s!"{kind}:quote-recovery(v{p.1})" tline) acc
+      -- 1b. the specification's verdict on the MODEL's step from the same pre-state (the object the `sat_*`
+      -- theorems speak about) must be the verdict on the implementation's step, check by check
+      let mstep : Step := { Perp.Props.ModelStep.modelStep h.last.w env sender funds tx with liqsThisBlock := step.liqsThisBlock }
+      let acc := if impersonated' then acc else
+        ((allChecks step).zip (allChecks mstep)).foldl (fun a pq =>
+          if pq.1.2 == pq.2.2 || pq.1.1 == "C09" && pq.1.2.any (· == "role-holder-refused-as-unauthorized")
+             || pq.1.2.any (· == "unrestricted-trader-refused-as-restricted") then a
+          else a.report "DISAGREE" pq.1.1 s!"{kind}:spec-verdict(impl={pq.1.2},model={pq.2.2})" tline) acc
       -- 2. correspondence: model step from the implementation's pre-state
       -- outside the model's domain: the harness impersonates the engine and calls the insurance fund
       -- contract directly while the engine itself is configured with ANOTHER fund; the model's
       -- `.ifWithdraw` stands for the engine's call of the fund it is configured with (a real engine
       -- would never send this message), so only Spec is evaluated on such a step
-      let impersonated := kind == "ifwithdraw" && sender == ENGINE && h.last.w.engine.cfg.insuranceFund != IFUND
       let acc :=
-        if impersonated then acc.cover s!"{kind}:outside-model(engine-rewired)" else
+        if impersonated' then acc.cover s!"{kind}:outside-model(engine-rewired)" else
         match World.applyTx h.last.w env sender funds tx with
         | .ok mw =>
           let acc := acc.cover s!"{kind}:ok"
